@@ -234,8 +234,15 @@ func (pe *PathEnum) Run(fn *ssa.Function) {
 			pe.cur = fr
 			if !ok {
 				if pe.IgnoreUnknown {
-					for _, s := range b.Succs {
+					nx, trueMeansNil, isNilCmp := nilCompare(cond)
+					for k, s := range b.Succs {
+						m := pe.env.mark()
+						if isNilCmp {
+							condTrue := (k == 0) != neg
+							pe.env.setNil(nx, condTrue == trueMeansNil)
+						}
 						walk(fr, s, 0, b, resume)
+						pe.env.rollback(m)
 					}
 					return
 				}
@@ -271,6 +278,7 @@ func (pe *PathEnum) Run(fn *ssa.Function) {
 			if fr.call != nil && resume != nil {
 				m := pe.env.mark()
 				pe.env.bindResults(fr, x)
+				pe.env.bindNilness(fr, x)
 				results := retResults(x)
 				saved := map[ssa.Value]ssa.Value{}
 				setVal := func(target, rv ssa.Value) {
